@@ -16,6 +16,12 @@ Reads, fail closed, from the source tree under test:
    over `detector.time_step`, the arguments and step-independent detector attributes: one row per combination of
    the option branches (`if convert_to_photons:` ...), helpers that receive the time step are inlined.
 
+3. (translator/c17_life.py) the Detector family and, for every class that defines its own `empty(reset)`, what it
+   empties for reset = True / False and with which value it calls the parent's `empty`; the functions that run
+   the readouts of an exposure and the argument of their `detector.empty(...)` calls  -> `det_table`, `loop_table`
+   (Model/FluxDet.v); Properties/C17.v proves that on every class, by every loop, photon and charge are emptied
+   at every readout and pixel exactly in destructive mode.
+
 The rows go to Gen_C17.v as `rate_table : list rate_row` (Model/FluxExpr.v); Properties/C17.v proves over the
 regenerated table that every deterministic row is linear in the time step.  Nothing here fingerprints a function
 body: assignments are followed symbolically, so reordering, renaming locals or introducing intermediate factors
@@ -30,6 +36,7 @@ from pathlib import Path
 
 from harness.core import TranslationError
 
+from . import c17_life as life
 from .common import HEADER, parse
 
 MODELS_DIR = "pyxel/models"
@@ -121,6 +128,23 @@ CLASSIFICATION = {
 }
 
 
+# the models of the property that move charge from one bucket to the next without reading the clock: what they add
+# to their sink must be linear in the content of their source bucket (expectation-value conversion: photon * qe;
+# collection: the charge itself) and must not depend on the time step.  Read symbolically like the rate models,
+# with the source bucket's array in the role of the time step.
+LINEAR_MODELS = {
+    "pyxel/models/charge_generation/photoelectrons.py:simple_conversion": dict(
+        kind="simple_conversion", src="photon", sink="charge", identity=False,
+        params=dict(quantum_efficiency="rate", seed="other", binomial_sampling="noise"), random_when=["binomial_sampling"]),
+    "pyxel/models/charge_generation/photoelectrons.py:conversion_with_qe_map": dict(
+        kind="qe_map", src="photon", sink="charge", identity=False,
+        params=dict(filename="rate", position="rate", align="rate", seed="other", binomial_sampling="noise"),
+        random_when=["binomial_sampling"]),
+    "pyxel/models/charge_collection/collection.py:simple_collection": dict(
+        kind="simple_collection", src="charge", sink="pixel", identity=True, params={}, random_when=[]),
+}
+
+
 # ------------------------------------------------------------------------------------------ 1. time readers
 
 
@@ -177,6 +201,10 @@ def scan_time_readers(repo: Path) -> dict[str, list[str]]:
 
 STEP = ("step",)
 DET = ("det",)
+SRC = ("src",)        # linear mode: the detector bucket a conversion / collection model reads
+SRC_ARRAYS = {"array", "array_2d", "array_3d", "_array"}
+# methods that are linear in their receiver (only followed in linear mode): photon.integrate(coord="wavelength")
+LINEAR_METHODS = {"integrate", "sum"}
 
 
 def var(name):
@@ -221,6 +249,14 @@ PASS_THROUGH_ATTRS = {"value", "values", "data", "magnitude"}
 ONES = {"np.ones", "np.ones_like", "numpy.ones"}
 ZEROS = {"np.zeros", "np.zeros_like", "numpy.zeros"}
 SAFE_GLOBALS = {"len", "isinstance", "min", "max", "abs", "bool", "int", "float"}
+# a conversion to one of these types keeps the value (anything else - int, bool, unsigned - truncates / wraps)
+FLOAT_TYPES = {"float", "np.float64", "numpy.float64", "np.floating", "np.double", "numpy.double", "np.longdouble",
+               "'float'", "'float64'", "'f8'", "'d'", "np.float128"}
+
+
+def float_dtype(node: ast.AST) -> bool:
+    return (dotted(node) or (repr(node.value) if isinstance(node, ast.Constant) and isinstance(node.value, str) else "?")) \
+        in FLOAT_TYPES
 
 
 def dotted(n: ast.AST):
@@ -278,6 +314,7 @@ class Sym:
                     self.index.setdefault(n.name, []).append((rel, n))
         self.call_names: dict[str, str] = {}
         self.forced: dict[int, tuple] = {}
+        self.mode = None      # None: rate models (linear atom = detector.time_step); else dict(src=bucket, sink=bucket)
 
     # ---------------------------------------------------------------- helpers
     def fail(self, rel, node, msg):
@@ -332,7 +369,7 @@ class Sym:
 
     # ---------------------------------------------------------------- expressions
     def compound(self, fr, p, n, children):
-        vs = [bad("state", "detector") if v == DET else v for v in (self.ev(fr, p, c) for c in children)]
+        vs = [bad("state", "detector") if v in (DET, SRC) else v for v in (self.ev(fr, p, c) for c in children)]
         if all(is_free(v) for v in vs):
             return var("expr:" + ast.unparse(n)[:80])
         return worst_bad(vs, ast.unparse(n))
@@ -351,6 +388,13 @@ class Sym:
             return var("global:" + n.id)
         if isinstance(n, ast.Attribute):
             base = self.ev(fr, p, n.value)
+            if base == SRC:
+                return STEP if n.attr in SRC_ARRAYS else bad("state", f"detector.{self.mode['src']}.{n.attr}")
+            if base == DET and self.mode:
+                if n.attr == self.mode["src"]:
+                    return SRC
+                if n.attr == STEP_ATTR:
+                    return bad("clock", "detector." + n.attr)      # a conversion must not depend on the time step
             if base == DET:
                 if n.attr == STEP_ATTR:
                     return STEP
@@ -362,7 +406,7 @@ class Sym:
             if base[0] == "var":
                 return var(base[1] + "." + n.attr)
             if base[0] == "bad":
-                if base == bad("clock", "detector.readout_properties") and n.attr == STEP_ATTR:
+                if base == bad("clock", "detector.readout_properties") and n.attr == STEP_ATTR and not self.mode:
                     return STEP                         # detector.readout_properties.time_step
                 return bad(base[1], base[2] + "." + n.attr)
             if n.attr in PASS_THROUGH_ATTRS:
@@ -379,8 +423,8 @@ class Sym:
             return var("expr:" + ast.unparse(n)[:80]) if is_free(a) else worst_bad([a], ast.unparse(n))
         if isinstance(n, ast.BinOp):
             a, b = self.ev(fr, p, n.left), self.ev(fr, p, n.right)
-            if DET in (a, b):
-                self.fail(rel, n, "arithmetic on the detector object")
+            if DET in (a, b) or SRC in (a, b):
+                self.fail(rel, n, "arithmetic on the detector object / a bucket object")
             ops = {ast.Add: "add", ast.Sub: "sub", ast.Mult: "mul", ast.Div: "div", ast.Pow: "pow"}
             for k, tag in ops.items():
                 if isinstance(n.op, k):
@@ -429,6 +473,8 @@ class Sym:
         kwargs = {k.arg: self.ev(fr, p, k.value) for k in n.keywords}
         allv = args + list(kwargs.values())
         text = ast.unparse(n)
+        if SRC in allv:
+            self.fail(rel, n, "a bucket object (not its array) is passed to a call")
         lowered = (fname or text).lower()
         segs = lowered.split("(")[0].split(".")
         if "random" in segs[:-1] or segs[-1] in ("poisson", "lognormal", "normal", "binomial", "exponential", "uniform",
@@ -441,15 +487,25 @@ class Sym:
                 self.fail(rel, n, "the detector object passed to a method")
             if recv == DET:
                 return bad("state", "detector." + n.func.attr + "()")
+            if recv == SRC:
+                return bad("state", f"detector.{self.mode['src']}.{n.func.attr}()")
             if recv[0] == "var":
                 return self.opaque_call(recv[1] + "." + n.func.attr, n) if all(is_free(v) for v in allv) \
                     else worst_bad(allv, text)
             if n.func.attr in PASS_THROUGH_METHODS and all(is_free(v) for v in allv):
+                if n.func.attr == "astype" and not (is_free(recv) or (len(n.args) + len(n.keywords) >= 1 and float_dtype(
+                        n.args[0] if n.args else next((k.value for k in n.keywords if k.arg == "dtype"), n)))):
+                    return bad("nonlin", text)         # .astype(int) truncates the value
+                return recv
+            if self.mode and n.func.attr in LINEAR_METHODS and all(is_free(v) for v in allv):
                 return recv
             return worst_bad([recv] + allv, text)
         if fname in PASS_THROUGH_FUNCS and args and all(is_free(v) for v in args[1:] + list(kwargs.values())):
             if args[0] == DET:
                 self.fail(rel, n, "the detector object passed to a wrapper")
+            dt = next((k.value for k in n.keywords if k.arg == "dtype"), None)
+            if dt is not None and not is_free(args[0]) and not float_dtype(dt):
+                return bad("nonlin", text)             # np.array(x, dtype=int) truncates the value
             return args[0]
         if fname in ONES and all(is_free(v) for v in allv):
             return const(1)
@@ -571,7 +627,12 @@ class Sym:
         self.fail(fr.rel, node, "assignment target not accepted")
 
     def sink_of(self, fr, p, node):
-        """('photon'|'charge', value AST) if node adds to a detector bucket."""
+        """('photon'|'charge'|'pixel', value AST) if node adds to a detector bucket."""
+        if self.mode and isinstance(node, ast.AugAssign) and isinstance(node.op, ast.Add) \
+                and isinstance(node.target, ast.Attribute) and node.target.attr in ("array", "_array") \
+                and isinstance(node.target.value, ast.Attribute) and node.target.value.attr == "pixel" \
+                and self.ev(fr, p, node.target.value.value) == DET:
+            return "pixel", node.value                  # detector.pixel.array += X
         if isinstance(node, ast.AugAssign) and isinstance(node.op, ast.Add) and isinstance(node.target, ast.Attribute):
             if self.ev(fr, p, node.target.value) == DET and node.target.attr == "photon":
                 return "photon", node.value
@@ -644,6 +705,9 @@ class Sym:
             return self.block(fr, [p], st.body)
         if isinstance(st, ast.If):
             return self.if_stmt(fr, p, st)
+        if isinstance(st, ast.Try) and not st.finalbody and st.handlers and all(self.only_raises(h.body) for h in st.handlers):
+            # `try: x = detector.characteristics.y  except ValueError: raise ...`: the failing path is a refusal
+            return self.block(fr, self.block(fr, [p], st.body), st.orelse)
         self.fail(rel, st, "statement shape not accepted")
 
     def if_stmt(self, fr: Frame, p: Path_, st: ast.If):
@@ -660,7 +724,7 @@ class Sym:
         # a branch on a run-time value: followed on both sides; it must not reach a bucket, return or raise, and
         # the locals it changes become step-independent unknowns (or bad values if the test is not step-independent)
         tv = self.ev(fr, p, st.test)
-        tv = bad("state", "detector") if tv == DET else tv
+        tv = bad("state", "detector") if tv in (DET, SRC) else tv
         outs = self.block(fr, [p.fork()], st.body) + self.block(fr, [p.fork()], st.orelse)
         for o in outs:
             if o.raised or o.done or o.sinks != p.sinks or o.conds != p.conds:
@@ -668,8 +732,10 @@ class Sym:
         changed = sorted({k for o in outs for k, v in o.env.items() if p.env.get(k) != v})
         for k in changed:
             vals = [o.env.get(k, p.env.get(k, var("global:" + k))) for o in outs]
-            vals = [bad("state", "detector") if v == DET else v for v in vals]
-            if all(is_free(v) for v in [tv] + vals):
+            vals = [bad("state", "detector") if v in (DET, SRC) else v for v in vals]
+            if all(v == vals[0] for v in vals):
+                p.env[k] = vals[0]                  # the same value on every side (photon 2-D / 3-D integrated)
+            elif all(is_free(v) for v in [tv] + vals):
                 p.env[k] = var("branch:" + k)
             elif is_free(tv):
                 # two different step-dependent values chosen by a step-independent run-time test: each side may be
@@ -722,6 +788,38 @@ def model_rows(sym: Sym, rel: str, qn: str, fn) -> list[dict]:
     return rows
 
 
+def linear_rows(sym: Sym, key: str, spec: dict) -> tuple[list[dict], dict]:
+    """Rows of one conversion / collection model: the expression added to the sink bucket, over the source bucket's
+    array (TStep in the expression) and step-independent values."""
+    rel, qn = key.split(":")
+    fn = find_function(sym.trees.get(rel) or parse(sym.repo, rel), qn)
+    if fn is None:
+        raise TranslationError(f"{key}: function not found")
+    params = _params(fn)[1:]
+    if fn.args.vararg or fn.args.kwarg:
+        raise TranslationError(f"{key}: *args/**kwargs in a conversion model")
+    if set(params) != set(spec["params"]):
+        raise TranslationError(f"{key}: parameters changed (new: {sorted(set(params) - set(spec['params']))}, "
+                               f"gone: {sorted(set(spec['params']) - set(params))}); classify them in translator/c17.py")
+    sym.mode = dict(src=spec["src"], sink=spec["sink"])
+    try:
+        rows = model_rows(sym, rel, qn, fn)
+    finally:
+        sym.mode = None
+    for r in rows:
+        if r["sink"] != spec["sink"]:
+            raise TranslationError(f"{key}: path [{path_label(r['conds'])}] adds to '{r['sink']}' instead of '{spec['sink']}'")
+        if r["expr"] == SRC:
+            raise TranslationError(f"{key}: the bucket object itself is added to '{spec['sink']}'")
+        r["src"] = spec["src"]
+        r["identity"] = bool(spec["identity"])
+        r["random"] = any(a[0] == "bad" and a[1] == "random" for a in atoms(r["expr"]))
+        if r["random"] and not any(cd in r["conds"] for cd in spec["random_when"]):
+            raise TranslationError(f"{key}: path [{path_label(r['conds'])}] draws random numbers outside the noise "
+                                   f"options {spec['random_when']}")
+    return rows, dict(kind=spec["kind"], params=params, defaults=defaults_of(fn), expr=True)
+
+
 def defaults_of(fn) -> dict:
     """Literal defaults of the model function's parameters (for evaluating the option conditions)."""
     a = fn.args
@@ -749,7 +847,12 @@ _GUARD_SHAPES = {
 }
 
 
-def _norm_guard(test: ast.AST) -> str:
+RP_FILE, RP_CLASS = "pyxel/detectors/readout_properties.py", "ReadoutProperties"
+# a refusal that can never fire on a schedule given as a flat list (the model's schedules are lists)
+_HARMLESS_GUARDS = {"T.ndim != 1", "np.ndim(T) != 1", "T.ndim > 1", "not T.ndim == 1"}
+
+
+def _norm_guard(test: ast.AST, aliases=()) -> str:
     class T(ast.NodeTransformer):
         def visit_Attribute(s, n):  # noqa: N802, N805
             if isinstance(n.value, ast.Name) and n.value.id == "self" and n.attr in ("_times", "times"):
@@ -759,6 +862,8 @@ def _norm_guard(test: ast.AST) -> str:
             return s.generic_visit(n)
 
         def visit_Name(s, n):  # noqa: N802, N805
+            if n.id in aliases:
+                return ast.Name(id="T", ctx=ast.Load())
             return ast.Name(id="S", ctx=ast.Load()) if n.id == "start_time" else n
 
     import copy
@@ -780,20 +885,35 @@ def _chain(st: ast.If):
             return links, st.orelse
 
 
-def readout_guards(repo: Path) -> dict:
-    """The refusals of Readout.__init__ that concern the schedule: which of the three guards are present, and
-    whether an empty `times` is refused before them.  Any other refusal that mentions the times / start time is
-    a shape this translator does not know: fail closed."""
+def _array_aliases(fn) -> set:
+    """`times` and the locals that hold it as an array (`times_1d = np.array(times, dtype=float)`)."""
+    out = {"times"}
+    for st in fn.body:
+        if isinstance(st, (ast.Assign, ast.AnnAssign)) and isinstance(st.value, ast.Call):
+            tg = st.targets[0] if isinstance(st, ast.Assign) else st.target
+            if isinstance(tg, ast.Name) and (dotted(st.value.func) or "").split(".")[-1] in ("array", "asarray", "asanyarray") \
+                    and st.value.args and isinstance(st.value.args[0], ast.Name) and st.value.args[0].id in out:
+                out.add(tg.id)
+    return out
+
+
+def readout_guards(repo: Path, file=None, cls=None, local_aliases=False) -> dict:
+    """The refusals of Readout.__init__ (or, with file / cls, of the detector's ReadoutProperties.__init__, which
+    every run goes through again) that concern the schedule: which of the three guards are present, and whether
+    an empty `times` is refused before them.  Any other refusal that mentions the times / start time is a shape
+    this translator does not know: fail closed."""
     from .common import body_no_doc, find_func
 
+    READOUT_FILE, READOUT_CLASS = file or globals()["READOUT_FILE"], cls or globals()["READOUT_CLASS"]
     tree = parse(repo, READOUT_FILE)
     fn = find_func(tree, "__init__", cls=READOUT_CLASS)
+    aliases = _array_aliases(fn) if local_aliases else ()
     guards, empty_refused = [], False
     for st in body_no_doc(fn):
         if not isinstance(st, ast.If):
             continue
         links, orelse = _chain(st)
-        tests = [_norm_guard(t) for t, _ in links]
+        tests = [_norm_guard(t, aliases) for t, _ in links]
         mentions_schedule = any(("T" in {n.id for n in ast.walk(ast.parse(t, mode="eval")) if isinstance(n, ast.Name)}
                                  or "S" in {n.id for n in ast.walk(ast.parse(t, mode="eval")) if isinstance(n, ast.Name)})
                                 for t in tests)
@@ -807,6 +927,8 @@ def readout_guards(repo: Path) -> dict:
         for (test, body), text in zip(links, tests):
             if not _ends_with_raise(body):
                 raise TranslationError(f"{READOUT_FILE}:{test.lineno}: a branch on the readout times that does not raise: {text}")
+            if text in _HARMLESS_GUARDS:
+                continue
             kind = next((k for k, shapes in _GUARD_SHAPES.items() if text in shapes), None)
             if kind is None:
                 raise TranslationError(f"{READOUT_FILE}:{test.lineno}: readout guard of an unknown shape: {text}")
@@ -868,7 +990,7 @@ def render(st: dict) -> str:
     L = [HEADER,
          "(* C17: time readers of pyxel/models and the increment expressions of the time-integrating models *)",
          "From Coq Require Import QArith List String.",
-         "From PyxelV Require Import Model.FluxExpr.",
+         "From PyxelV Require Import Model.FluxExpr Model.FluxDet.",
          "Import ListNotations.", "Open Scope string_scope.", "Open Scope Q_scope.", ""]
     L.append("(* every function under pyxel/models that reads the exposure clock (or has a time_scale parameter) *)")
     L.append("Definition time_readers : list (string * list string) := [")
@@ -883,7 +1005,9 @@ def render(st: dict) -> str:
     L.append("].\n")
     L.append("(* the schedule refusals of Readout.__init__ *)")
     L.append("Definition readout_guards : list sguard := [" + "; ".join(st["readout"]["guards"]) + "].")
-    L.append(f"Definition readout_empty_refused : bool := {'true' if st['readout']['empty_refused'] else 'false'}.\n")
+    L.append(f"Definition readout_empty_refused : bool := {'true' if st['readout']['empty_refused'] else 'false'}.")
+    L.append("(* the same refusals in ReadoutProperties.__init__, through which Detector.set_readout passes every run *)")
+    L.append("Definition detector_readout_guards : list sguard := [" + "; ".join(st["readout_rp"]["guards"]) + "].\n")
     L.append("Definition rate_table : list rate_row := [")
     rows = []
     for r in st["rows"]:
@@ -891,7 +1015,20 @@ def render(st: dict) -> str:
                     f"     rr_sink := {'SPhoton' if r['sink'] == 'photon' else 'SCharge'};\n"
                     f"     rr_expr := {e_lit(r['expr'])} |}}")
     L.append(";\n".join(rows))
+    L.append("].\n")
+    L.append("(* the conversion / collection models: what they add to their sink bucket, over the content of their source\n"
+             "   bucket (TStep stands for that content here) *)")
+    L.append("Definition conv_table : list conv_row := [")
+    crows = []
+    sk = {"photon": "BkPhoton", "charge": "BkCharge", "pixel": "BkPixel"}
+    for r in st["conv_rows"]:
+        crows.append(f"  {{| cr_model := {s_lit(r['model'])}; cr_path := {s_lit(path_label(r['conds']))};\n"
+                     f"     cr_src := {sk[r['src']]}; cr_sink := {sk[r['sink']]}; cr_identity := {'true' if r['identity'] else 'false'};\n"
+                     f"     cr_expr := {e_lit(r['expr'])} |}}")
+    L.append(";\n".join(crows))
     L.append("].")
+    L.append("Definition conv_models : list string := [" + "; ".join(s_lit(k) for k in sorted(st["conv_models"])) + "].\n")
+    L.append(life.render_life(st["family"], st["loops"]))
     return "\n".join(L) + "\n"
 
 
@@ -908,7 +1045,8 @@ def translate_struct(repo: Path) -> dict:
     # an excluded entry whose function disappeared or stopped reading the clock is harmless (kept in the table);
     # an integrating model must still exist - whether it still uses the time step is decided by its rows below
     sym = Sym(repo)
-    st = dict(readout=readout_guards(repo), readers=readers, integrating=[], expr_models=[], excluded=[], rows=[], models={})
+    st = dict(readout=readout_guards(repo), readout_rp=readout_guards(repo, RP_FILE, RP_CLASS, True), readers=readers, integrating=[], expr_models=[], excluded=[], rows=[], models={},
+              family=life.detector_family(repo), loops=life.readout_loops(repo))
     for key in sorted(CLASSIFICATION):
         c = CLASSIFICATION[key]
         if c["cls"] == EXCLUDED:
@@ -939,6 +1077,11 @@ def translate_struct(repo: Path) -> dict:
                                        f"noise options {c['random_when']}")
             r["random"] = is_random
         st["rows"] += rows
+    st["conv_rows"], st["conv_models"] = [], {}
+    for key in sorted(LINEAR_MODELS):
+        rows, info = linear_rows(sym, key, LINEAR_MODELS[key])
+        st["conv_rows"] += rows
+        st["conv_models"][key] = info
     return st
 
 
@@ -949,12 +1092,14 @@ def translate(repo: Path) -> str:
 def struct_to_json(st: dict) -> str:
     d = dict(st)
     d["rows"] = [dict(r, expr=e_json(r["expr"])) for r in st["rows"]]
+    d["conv_rows"] = [dict(r, expr=e_json(r["expr"])) for r in st["conv_rows"]]
     return json.dumps(d, indent=1, sort_keys=True)
 
 
 def struct_from_json(s: str) -> dict:
     d = json.loads(s)
     d["rows"] = [dict(r, expr=e_unjson(r["expr"])) for r in d["rows"]]
+    d["conv_rows"] = [dict(r, expr=e_unjson(r["expr"])) for r in d["conv_rows"]]
     d["excluded"] = [tuple(x) for x in d["excluded"]]
     return d
 
